@@ -13,6 +13,7 @@ RULE = (
     "case = mesh from {generated device (holes, terminals free or held at psi = 1, smoothing), perturbed grid, Delaunay of generated points, annulus} x gamma/u "
     "x adaptive on/off x screening on/off, 30..200 steps with dt below the explicit stability scale; non-trivial = irregular mesh "
     "(edge-length spread > 2) with >= 50 sites; distinct by spec hash"
+    "; the device may have been used before for an ordinary driven run"
 )
 ASSUMPTIONS = [
     "'exactly' is read as: max|psi-1|, |Js|, |Jn|, ptp(mu) <= 1e-9 and |A_induced| <= 1e-12 in every frame (row sums of the assembled Laplacian are ~1e-13, bit-exactness cannot be demanded of floating-point sums)",
